@@ -174,6 +174,19 @@ CHECKS = {
         "Layout families are enumerated by hand from the statement, README and test-suite; notebooks/REPL sources are not modelled.",
         "DESIGN.md section 4, C03",
     ),
+    "C04": (
+        "Hypothesis generation of source modules (closure/global/class/module-attribute captures, shadowing binders, value types) "
+        "x rebinding histories; oracle = the real lambda object evaluated by CPython at call time vs the emitted lambda evaluated "
+        "without the module namespace after every history step + dump stability",
+        "Every generated module passes a lambda with captured names to Select on a recording dataset; the value the real lambda "
+        "returns on a sample element when Select is called is the reference. The emitted lambda, evaluated by CPython with an "
+        "empty namespace, must give that value at the call, after every rebinding/deleting step and in the AST handed to the "
+        "executor, and ast.dump of the query must not change; shadowed names must not be replaced (same evaluation); a used "
+        "capture holding a non-transportable value must raise ValueError.",
+        "Sample element has one int and one sequence member; cases python itself cannot evaluate (3.12 inlined-comprehension "
+        "scoping corner) are counted as reference errors.",
+        "DESIGN.md section 4, C04",
+    ),
 }
 
 NOT_YET = "check not built yet in this round (work in progress; see DESIGN.md section 4 for the planned generator/oracle)"
